@@ -162,7 +162,7 @@ def _loop (ctx, repo, f, L):
       rets = [x for x in r if x.kind == 'return']
       good = kn in r and all(g.dominates(kn, x) or x not in g.reachable(L.after) for x in rets if x in g.reachable(L.after) and q.reach_under(repo, mod, g, q.Env({'%s != 0' % L.cur: True, L.cur: 5}), f.cls, start=L.after))
       # simpler: with cursor != 0, no return is reachable from the loop exit without passing the trim
-      r2 = q.reach_under(repo, mod, g, q.Env({'%s != 0' % L.cur: True, '%s == 0' % L.cur: False}), f.cls, start=L.after)
+      r2 = q.reach_under(repo, mod, g, q.Env({'%s != 0' % L.cur: True, '%s == 0' % L.cur: False, L.cur: 5}), f.cls, start=L.after)
       bypass = g.exit in set(x for x in _reach_avoid(g, L.after, [kn], r2))
       ctx.ob('R-ORDER', f, "when bytes were consumed the buffer is trimmed before returning", not bypass, "trim on every normal exit with cursor != 0" if not bypass else
              "the function can return normally with consumed bytes still at the head of the buffer: the next read re-delivers them", (mod, keep[0][1]), 'D6')
@@ -207,6 +207,12 @@ def _emptied_when_all_consumed (f, st, buf, count=None):
     L, R = norm(l), norm(r)
     for a_, b_ in ((L, R), (R, L)):
       if b_ == 'len(%s)' % buf and (count is None or a_ == count): return True
+      # a property that returns len(buf) (IOWorker.available)
+      if b_.startswith('self.') and f.cls is not None and (count is None or a_ == count):
+        pf = f.cls.find_method(b_[5:])
+        if pf is not None and 'property' in pf.decorators:
+          rv = [r_.value for r_ in q.returns_of(pf.node) if r_.value is not None]
+          if len(rv) == 1 and norm(rv[0]) == 'len(%s)' % buf: return True
   return False
 
 def _buffers (ctx, repo):
